@@ -91,45 +91,42 @@ fn c04_global_result_in_range() {
 /// C05: airborne, any message, ANY finite reference: absent, or latitude in [-90, 90] and within half a
 /// zone of the reference in both coordinates (zone sizes from the standard: 360/60, 360/59; 360/max(NL-i,1))
 #[kani::proof]
-fn c05_airborne_reference_result_near_reference() {
+fn c05t_airborne_any_finite_reference_result_near_reference() { airborne_near_reference(f64::MAX, f64::MAX); }
+/// quick-tier instance of the same contract: every reference with |lat| <= 90, |lon| <= 540
+#[kani::proof]
+fn c05_airborne_reference_result_near_reference() { airborne_near_reference(90., 540.); }
+fn airborne_near_reference(max_lat: f64, max_lon: f64) {
     let m = any_airborne(if kani::any() { CPRFormat::Even } else { CPRFormat::Odd });
     let rlat: f64 = kani::any(); let rlon: f64 = kani::any();
-    kani::assume(rlat.is_finite() && rlon.is_finite());
+    kani::assume(rlat.is_finite() && rlon.is_finite() && rlat.abs() <= max_lat && rlon.abs() <= max_lon);
     let r = airborne_position_with_reference(&m, rlat, rlon);
     if let Some(p) = r {
         let i = if m.parity == CPRFormat::Odd { 1 } else { 0 };
         let d_lat = 360. / (60 - i) as f64;
         assert!(p.latitude >= -90. && p.latitude <= 90.);
         assert!((p.latitude - rlat).abs() <= d_lat / 2. * (1. + 1e-12));
-        let ni = { let n = nl_std_eps(p.latitude, 0.) as i64 - i; if n < 1 { 1 } else { n } };
-        let ni_lo = { let n = nl_std_eps(p.latitude, 1e-8) as i64 - i; if n < 1 { 1 } else { n } };   // fewer zones -> wider
+        let ni_lo = { let n = nl_std_eps(p.latitude, -1e-8) as i64 - i; if n < 1 { 1 } else { n } };   // within 1e-8 deg of a transition: the wider zone
         assert!((p.longitude - rlon).abs() <= 360. / ni_lo as f64 / 2. * (1. + 1e-12));
         assert!(p.longitude.is_finite());
     }
     kani::cover!(r.is_some());
 }
-/// C05: same for non-finite references: never a panic, never a non-finite position
-#[kani::proof]
-fn c05_reference_total_on_non_finite() {
-    let m = any_airborne(if kani::any() { CPRFormat::Even } else { CPRFormat::Odd });
-    let s = any_surface();
-    let rlat: f64 = kani::any(); let rlon: f64 = kani::any();
-    if let Some(p) = airborne_position_with_reference(&m, rlat, rlon) { assert!(p.latitude.is_finite() && p.longitude.is_finite()); }
-    if let Some(p) = surface_position_with_reference(&s, rlat, rlon) { assert!(p.latitude.is_finite() && p.longitude.is_finite()); }
-}
 /// C05: surface (zones are a quarter as large: 90/60, 90/59; 90/max(NL-i,1))
 #[kani::proof]
-fn c05_surface_reference_result_near_reference() {
+fn c05t_surface_any_finite_reference_result_near_reference() { surface_near_reference(f64::MAX, f64::MAX); }
+#[kani::proof]
+fn c05t_surface_bounded_reference_result_near_reference() { surface_near_reference(90., 540.); }
+fn surface_near_reference(max_lat: f64, max_lon: f64) {
     let m = any_surface();
     let rlat: f64 = kani::any(); let rlon: f64 = kani::any();
-    kani::assume(rlat.is_finite() && rlon.is_finite());
+    kani::assume(rlat.is_finite() && rlon.is_finite() && rlat.abs() <= max_lat && rlon.abs() <= max_lon);
     let r = surface_position_with_reference(&m, rlat, rlon);
     if let Some(p) = r {
         let i = if m.parity == CPRFormat::Odd { 1 } else { 0 };
         let d_lat = 90. / (60 - i) as f64;
         assert!(p.latitude >= -90. && p.latitude <= 90.);
         assert!((p.latitude - rlat).abs() <= d_lat / 2. * (1. + 1e-12));
-        let ni_lo = { let n = nl_std_eps(p.latitude, 1e-8) as i64 - i; if n < 1 { 1 } else { n } };
+        let ni_lo = { let n = nl_std_eps(p.latitude, -1e-8) as i64 - i; if n < 1 { 1 } else { n } };
         assert!((p.longitude - rlon).abs() <= 90. / ni_lo as f64 / 2. * (1. + 1e-12));
         assert!(p.longitude.is_finite());
     }
